@@ -7,6 +7,7 @@ import FinamModel.Output
 import FinamModel.DriverTime
 import FinamModel.DriverLink
 import FinamModel.DriverSched
+import FinamModel.DriverStatic
 /-! Line-protocol handlers: one JSON object in, one JSON object out. -/
 namespace Finam.Driver
 open Lean
@@ -41,7 +42,7 @@ def handlers : List (String × (Json → Json)) := [
   ("c16", C16.handle),
   ("c09", handleC09),
   ("c08", C08.handle)
-] ++ gridHandlers ++ Sched.handlers ++ timeHandlers
+] ++ gridHandlers ++ Sched.handlers ++ C20.handlers ++ timeHandlers
 
 def step (line : String) : String :=
   match Json.parse line with
